@@ -31,6 +31,27 @@ CLAIMED = {
             "non-constant operand passes a range test against exactly its width's maximum whose failure compile() returns.",
             "Operand values themselves are not enumerated; the guard's limits are compared with the widths, not executed; " + TRUST,
             "DESIGN.md §3 C14"),
+    "C06": ("table agreement on is_falsey's match arms vs docs + routing and template rules on typed HIR",
+            "Decides completely the truthiness table (23 variants, against the documented table and the property's list), "
+            "that the three truthiness opcodes decide through is_falsey with the documented polarity and that nothing "
+            "else in the VM decides on a Bool payload; decides the shape (emission sequence) of && / || templates, not "
+            "operand values.",
+            "Operator results follow from the templates only under the VM's per-opcode semantics; " + TRUST,
+            "DESIGN.md §3 C06"),
+    "C09": ("partial evaluation of dispatch arms per operator class + primitive classification of every operator-impl arm",
+            "Decides, exhaustively over 23x23 operand-kind pairs x 6 operator classes, which combinations reach a result "
+            "and which a runtime error, and per arm the result kind and primitive (wrapping_* for i64/u8, IEEE for f64), "
+            "zero-divisor and negative-count guards, and Eq/Ord/Ne sibling agreement. Numeric values follow from Rust's "
+            "semantics of the primitive and are not enumerated.",
+            "IEEE-754 and wrapping_* semantics are std's; " + TRUST,
+            "DESIGN.md §3 C09"),
+    "C10": ("exhaustive Eq=>Hash contract check between PartialEq and Hash match arms + routing through std HashMap",
+            "Decides completely, given std::collections::HashMap, that every pair of valid-key variants that can compare "
+            "equal feeds the hasher identically (frozen compatibility table for primitive pairs, structural inspection of "
+            "the local Array/BuiltinFunction impls and of the canonical-bits helper), and that every map access goes "
+            "through HashMap with the key unchanged.",
+            "std's Hash/Eq agreement for primitives and String is trusted; " + TRUST,
+            "DESIGN.md §3 C10"),
 }
 
 NOT_APPLICABLE = {
